@@ -132,6 +132,8 @@ fn rand_dop(rng: &mut Rng, cur_len: usize) -> DOp {
 
 pub fn c14(out: &mut Out, rng0: &mut Rng, tier: &Tier) {
     let mut rng = Rng::new(rng0.next() ^ (tier.shard as u64 + 7).wrapping_mul(0x9E37_79B9_7F4A_7C15));
+    // the str constructors (from_dna_string / from_dna_only_string) on ASCII and non-ASCII text
+    crate::c16::c14_texts(out, &mut rng, tier);
     let nhist = if tier.thorough { 4000 } else { 250 };
     let mut pool: Vec<DnaString> = Vec::new();
     for _ in 0..nhist {
